@@ -515,4 +515,30 @@ theorem runEng_late (evs : List (Nat × Int)) : ∀ (e : Eng), EngWF e →
       exact process_late e et ts he hd
     · exact ih _ (process_wf e et ts he) x hx hd
 
+/-- tracker-level view of the engine: a source's watermark (`none` when tracking is off) -/
+def engWmOf (e : Eng) (n : Nat) : Option Int := e.tracker.bind fun t => wmOf t n
+
+theorem process_mono (e : Eng) (et : Nat) (ts : Int) (n : Nat) :
+    wmLe (engWmOf e n) (engWmOf (process e et ts).1 n) := by
+  rcases process_cases e et ts with ⟨_, h2⟩ | ⟨_, h2, _⟩
+  · rw [h2]
+    cases hte : e.tracker with
+    | none => simp [engWmOf, hte, wmLe]
+    | some t =>
+      have := step_mono t (.observe et ts) trivial n
+      simpa [engWmOf, hte, step] using this
+  · rw [h2]; exact wmLe_refl _
+
+theorem runEng_mono (evs : List (Nat × Int)) : ∀ (e : Eng) (n : Nat),
+    ∀ x ∈ runEng e evs, wmLe (engWmOf e n) (engWmOf x.1 n) := by
+  induction evs with
+  | nil => intro e n x hx; simp [runEng] at hx
+  | cons ev rest ih =>
+    intro e n x hx
+    obtain ⟨et, ts⟩ := ev
+    simp only [runEng, List.mem_cons] at hx
+    rcases hx with hx | hx
+    · subst hx; exact wmLe_refl _
+    · exact wmLe_trans (process_mono e et ts n) (ih _ n x hx)
+
 end Varpulis.Watermark
